@@ -222,6 +222,16 @@ CHECKS = {
         text="Every generated byte string given to Basic::loads either throws a std::exception or returns an object that survives the post-load API battery under ASan+UBSan; crash-/leak- artifacts are violations (replayed 3x in fresh processes). Exploration bounded by run counts; committed corpus of 320 dumps + 24 program units plus an empty-corpus worker.",
         note="allocation above 256 KiB per request throws bad_alloc in the target (release builds throw where ASan would abort), GMP requests above 256 MiB and trees above 4000 nodes are resource noise. KF-C20-01/02 fixed in /repo and replayed as regressions.",
         variants=["fuzz"]),
+    "C41": dict(
+        engine="tsan", technique="property-based testing of generated concurrent programs under ThreadSanitizer: Hypothesis generates a shared expression pool and 2-8 per-thread instruction lists with yield/spin perturbations; oracle = no ThreadSanitizer report, every thread's results equal a sequential re-execution, pool unchanged (dumps, reference counts, str/hash/eq against a rebuilt pool); positive control on the same harness built without thread safety must produce reports",
+        text="For every generated program (pool of 2-9 shared expressions whose lazy hash is first computed concurrently; 2-8 threads running 1-12 operations from hash/compare/eq/str/diff/subs/expand/arithmetic after a barrier) on the WITH_SYMENGINE_THREAD_SAFE=yes build under -fsanitize=thread: no data-race report, per-thread results identical to sequential execution, pool and reference counts unchanged. Weak exploration: the harness does not own the scheduler.",
+        note="interleaving coverage comes from ThreadSanitizer's happens-before analysis plus generated perturbation, not from schedule enumeration (DESIGN.md section 7); the positive control (variant tsan0) makes a blind harness an internal error, never a pass. KF-C41-01 (global prime table) fixed in /repo.",
+        variants=["tsan", "tsan0"]),
+    "C43": dict(
+        engine="hy", technique="property-based differential testing across integer backends: the same generated program of exact computations (division family, gcd/gcdext/inverse, Legendre/Jacobi/Kronecker, roots, perfect powers, primality, combinatorial numbers, rationals, powers and radicals, expand, UIntPoly/URatPoly, trig at rational multiples of pi, big literal parsing/printing; operands at limb boundaries up to 2^400) is executed by three drivers built with INTEGER_CLASS gmp, gmpxx and boostmp and compared statement by statement",
+        text="For every generated program the three builds (gmp = variant main, gmpxx, boostmp) give identical answers per statement: raw dumps with hash-ordered dictionaries sorted, integers, strings, booleans, exception class. Randomised routines are excluded; FLINT/Piranha are not installed and not compared. Exploration.",
+        note="judges agreement of the builds, not correctness of the common answer (C05/C32/C21 judge that on gmp); probab_prime_p compared as zero/non-zero. KF-C43-01/02/03 (boostmp gcdext(0,0), kronecker(a,0), probab_prime_p(n<0)) fixed in /repo.",
+        variants=["main", "gmpxx", "boostmp"]),
 }
 
 NOT_APPLICABLE = {}
